@@ -21,7 +21,7 @@ class CycleError(Exception):
 
 class Ref:
     def __init__(self, spec: ModelSpec, dom, P, Y, W, EP=None, delayed=None, ext_inputs=None, edge_mask=(),
-                 zero_default=()):
+                 zero_default=(), weight_from=None):
         """P(node, op, var) -> value of a constant / input default
         Y(node, op, var) -> current value of a state variable
         W(i) -> weight of edge i (None weight => 1)
@@ -34,6 +34,7 @@ class Ref:
         # defect models (used only to attribute a violation to a known finding, never as the oracle)
         self.edge_mask = set(edge_mask)
         self.zero_default = set(zero_default)
+        self.weight_from = dict(weight_from or {})
         self._stack = set()
         self._memo = {}
 
@@ -111,9 +112,10 @@ class Ref:
             v = self.delayed(i, e, undelayed)
         else:
             v = undelayed()
-        if e.weight is None:
+        j = self.weight_from.get(i, i)
+        if self.spec.edges[j].weight is None:
             return v
-        return self.W(i) * v
+        return self.W(j) * v
 
     def _edge_template_value(self, i, src):
         e = self.spec.edges[i]
